@@ -53,7 +53,10 @@ structure EffD (t : Int) (force : Bool) (s s' : State) (Δ : (Lock → Int) → 
   locks : ∀ f, lsum f s'.locks = lsum f s.locks + Δ f
   modbal : ∀ dn, aget s'.modBal dn = aget s.modBal dn + Δ (amt dn)
   accum : ∀ dn, dn ≠ "" → ∀ d, accSumGE s'.accum dn d = accSumGE s.accum dn d + Δ (fDur dn d)
-  bal : ∀ o dn, aget s'.bal (o, dn) = aget s.bal (o, dn) - Δ (fOwner o dn)
+  /-- an account pays for what it locks and is paid what it had locked — except CL shares -/
+  bal : ∀ o dn, isCLDenom dn = false → aget s'.bal (o, dn) = aget s.bal (o, dn) - Δ (fOwner o dn)
+  /-- CL shares are minted into locks and burned out of them: no account balance of such a denomination ever grows -/
+  balCL : ∀ o dn, isCLDenom dn = true → aget s'.bal (o, dn) ≤ aget s.bal (o, dn)
   time : force = false → ∀ o dn, 0 ≤ Δ (fUnm t o dn)
   last : s.lastLockId ≤ s'.lastLockId
   allowed : s'.forceAllowed = s.forceAllowed
@@ -130,18 +133,19 @@ theorem FrzD.trans {t : Int} {force : Bool} {L L1 L2 : List Lock} {last last1 : 
 
 theorem Eff.refl (t : Int) (force : Bool) {s : State} (hidle : ∀ l ∈ s.locks, l.id ≤ s.lastLockId)
     (hn : (ids s.locks).Nodup) : Eff t force s s :=
-  ⟨fun _ => 0, ⟨by intro f; omega, by intro dn; omega, by intro dn _ d; omega, by intro o dn; omega,
-    by intro _ o dn; omega, Nat.le_refl _, rfl, FrzD.refl t force hidle hn⟩⟩
+  ⟨fun _ => 0, ⟨by intro f; omega, by intro dn; omega, by intro dn _ d; omega, by intro o dn _; omega,
+    by intro o dn _; omega, by intro _ o dn; omega, Nat.le_refl _, rfl, FrzD.refl t force hidle hn⟩⟩
 
 theorem Eff.trans {t : Int} {force : Bool} {s s1 s2 : State} (h1 : Eff t force s s1) (h2 : Eff t force s1 s2) :
     Eff t force s s2 := by
   obtain ⟨Δ1, e1⟩ := h1
   obtain ⟨Δ2, e2⟩ := h2
-  refine ⟨fun f => Δ1 f + Δ2 f, ⟨?_, ?_, ?_, ?_, ?_, ?_, ?_, ?_⟩⟩
+  refine ⟨fun f => Δ1 f + Δ2 f, ⟨?_, ?_, ?_, ?_, ?_, ?_, ?_, ?_, ?_⟩⟩
   · intro f; rw [e2.locks, e1.locks]; omega
   · intro dn; rw [e2.modbal, e1.modbal]; omega
   · intro dn hdn d; rw [e2.accum dn hdn, e1.accum dn hdn]; omega
-  · intro o dn; rw [e2.bal, e1.bal]; omega
+  · intro o dn hcl; rw [e2.bal o dn hcl, e1.bal o dn hcl]; omega
+  · intro o dn hcl; have := e1.balCL o dn hcl; have := e2.balCL o dn hcl; omega
   · intro hf o dn; have := e1.time hf o dn; have := e2.time hf o dn; omega
   · exact Nat.le_trans e1.last e2.last
   · rw [e2.allowed, e1.allowed]
@@ -258,6 +262,24 @@ theorem sendCoinToModule_some {s s1 : State} {o : Addr} {dn : Denom} {a : Int} (
     · cases h
     · injection h with h
       exact ⟨fun e => h1 (Or.inl e), by omega, h.symm⟩
+
+theorem mintCoinToModule_some {s s1 : State} {dn : Denom} {a : Int} (h : mintCoinToModule s dn a = some s1) :
+    dn ≠ "" ∧ 0 < a ∧ s1 = { s with modBal := aadd s.modBal dn a } := by
+  unfold mintCoinToModule at h
+  split at h
+  · cases h
+  · rename_i h1
+    injection h with h
+    exact ⟨fun e => h1 (Or.inl e), by omega, h.symm⟩
+
+theorem burnCoinFromModule_some {s s1 : State} {dn : Denom} {a : Int} (h : burnCoinFromModule s dn a = some s1) :
+    s1 = { s with modBal := aadd s.modBal dn (-a) } := by
+  unfold burnCoinFromModule at h
+  split at h
+  · cases h
+  · split at h
+    · cases h
+    · injection h with h; exact h.symm
 
 theorem sendCoinFromModule_some {s s1 : State} {o : Addr} {dn : Denom} {a : Int} (h : sendCoinFromModule s o dn a = some s1) :
     s1 = { s with bal := aadd s.bal (o, dn) a, modBal := aadd s.modBal dn (-a) } := by
